@@ -40,6 +40,11 @@ def scan_catalogue(kani_dir=None):
             hid = kv["id"]
             # labelled obligations = assert messages inside the function body that follows
             body = fn_body_after(text, m.end(), hid)
+            # one level of local helper functions (`fn case(..)` shared by several harnesses)
+            for callee in set(re.findall(r"\b([a-z_][a-z0-9_]*)\s*\(", body)):
+                hm = re.search(r"\n\s*fn\s+" + callee + r"\s*\([^)]*\)\s*(?:->[^{]*)?\{", text)
+                if hm and callee != hid and callee.endswith("_case"):
+                    body += helper_body(text, hm.end())
             labels = sorted(set(re.findall(r'"((?:[a-z0-9_]+\.)+[A-Za-z0-9_\.]+)"', body)))
             obl = [l for l in labels if not l.startswith("cover.")]
             covers = [l for l in labels if l.startswith("cover.")]
@@ -64,6 +69,18 @@ def scan_catalogue(kani_dir=None):
     if dup:
         raise SystemExit("catalogue error: duplicate harness ids %s" % dup)
     return cat
+
+
+def helper_body(text, i):
+    depth, j = 1, i
+    while j < len(text) and depth:
+        c = text[j]
+        if c == "{":
+            depth += 1
+        elif c == "}":
+            depth -= 1
+        j += 1
+    return text[i:j]
 
 
 def fn_body_after(text, pos, hid):
